@@ -133,8 +133,8 @@ func zz2Pool() []*zz2Ent {
 		return &zz2Ent{m: m, key: string(m), data: data}
 	}
 	// block 0 may be the empty block (size 0 must be distinguished from "size unknown")
-	la := verifrt.NondetRange("len0", 0, verifrt.Param("LEN0", 1))
-	return []*zz2Ent{mk(0x10, verifrt.NondetBytes("data0", la)), mk(0x60, verifrt.NondetBytes("data1", 2))}
+	la := zz2Range("len0", 0, verifrt.Param("LEN0", 1))
+	return []*zz2Ent{mk(0x10, zz2Bytes("data0", la)), mk(0x60, zz2Bytes("data1", 2))}
 }
 
 // form: 0 = CIDv1 raw, 1 = CIDv1 dag-pb, 2 = CIDv0
@@ -482,6 +482,7 @@ type zz2World struct {
 	pool   []*zz2Ent
 	back   *zz2Back
 	layers int // bit 0: two-queue cache, bit 1: bloom cache (on top)
+	focus  int // pool index addressed by single-key operations
 	tq     *tqcache
 	bc     *bloomcache
 	top    Blockstore
@@ -542,12 +543,23 @@ func zz2NewWorld(layers int, arbitrary bool, lower func(*zz2Back) Blockstore, lr
 	under := lower(w.back)
 	// per key: 0 absent, 1 absent + cached "not there", 2 present, 3 present + cached "there", 4 present + cached size
 	hasTQ, hasBloom := layers&zz2LTQ != 0, layers&zz2LBloom != 0
+	// the key that single-key operations will address gets every state; the other key a reduced set when the
+	// composite's state space would otherwise be too large (REDUCE: 0 none, 1 three states, 2 two states)
+	reduce := verifrt.Param("REDUCE", 0)
+	if arbitrary {
+		w.focus = zz2Range("focus", 0, len(w.pool)-1)
+	}
 	st := make([]int, len(w.pool))
 	for i := range w.pool {
-		if hasTQ && arbitrary {
-			st[i] = verifrt.NondetRange("state", 0, 4)
-		} else {
-			st[i] = 2 * verifrt.NondetRange("state", 0, 1)
+		switch {
+		case !(hasTQ && arbitrary):
+			st[i] = 2 * zz2Range("state", 0, 1)
+		case i == w.focus || reduce == 0:
+			st[i] = zz2Range("state", 0, 4)
+		case reduce == 1:
+			st[i] = []int{0, 1, 4}[zz2Range("state", 0, 2)]
+		default:
+			st[i] = []int{0, 4}[zz2Range("state", 0, 1)]
 		}
 		w.back.present[i] = st[i] >= 2
 	}
@@ -574,13 +586,13 @@ func zz2NewWorld(layers int, arbitrary bool, lower func(*zz2Back) Blockstore, lr
 		w.bc = zz2NewBloom(ctx, under)
 		w.top = w.bc
 		if arbitrary {
-			active := verifrt.NondetBool("active")
+			active := zz2Bool("active")
 			for i, e := range w.pool {
 				// the invariant forces present keys into an active filter; everything else is arbitrary
 				// (false positives, keys deleted since, leftovers of a failed build)
-				in := verifrt.NondetBool("infilter")
-				if active && w.back.present[i] {
-					verifrt.Assume(in)
+				in := w.back.present[i]
+				if !(active && in) && (i == w.focus || reduce < 2) {
+					in = zz2Bool("infilter")
 				}
 				if in {
 					w.bc.bloom.Load().AddTS(e.m)
@@ -656,30 +668,33 @@ func zz2StubsActive() {
 // =========================================================================================================
 
 func zz2PickTarget(w *zz2World, allowUndef bool) (int, int, cid.Cid) {
-	hi := len(w.pool) - 1
-	if allowUndef {
-		hi++
+	if allowUndef && verifrt.NondetBool("undef") {
+		return len(w.pool), 0, cid.Undef
 	}
-	t := verifrt.NondetRange("target", 0, hi)
-	if t == len(w.pool) {
-		return t, 0, cid.Undef
+	form := zz2PickForm()
+	return w.focus, form, w.pool[w.focus].cid(form)
+}
+
+// zz2PickForm: CIDv1-raw or CIDv0 of the same multihash (FORMS=2: also CIDv1 dag-pb).
+func zz2PickForm() int {
+	if verifrt.Param("FORMS", 1) >= 2 {
+		return verifrt.NondetRange("form", 0, 2)
 	}
-	form := verifrt.NondetRange("form", 0, 2)
-	return t, form, w.pool[t].cid(form)
+	return 2 * verifrt.NondetRange("form", 0, 1)
 }
 
 func zz2Step(layers int, ops []int) {
-	viewer := verifrt.NondetBool("viewer")
+	op := ops[verifrt.NondetRange("op", 0, len(ops)-1)]
+	viewer := op != zz2View || verifrt.NondetBool("viewer") // only View looks at the capability
 	w := zz2NewWorld(layers, true, func(b *zz2Back) Blockstore { return zz2Lower(b, viewer, false) }, 64)
 	w.checkInvariant("pre-") // sanity of the generator itself
-	op := ops[verifrt.NondetRange("op", 0, len(ops)-1)]
 	single := op <= zz2Delete
 	target, form, c := 0, 0, cid.Undef
 	if single {
 		target, form, c = zz2PickTarget(w, op != zz2Put)
 	} else {
-		target = verifrt.NondetRange("target", 0, len(w.pool)-1)
-		form = verifrt.NondetRange("form", 0, 2)
+		target = w.focus
+		form = zz2PickForm()
 	}
 	cbFails := op == zz2View && verifrt.NondetBool("cbfails")
 	twin := w.back.clone()
@@ -815,17 +830,26 @@ func zz2SetEnum(w *zz2World, tag string) (complete bool, cancel bool) {
 			n++
 		}
 	}
-	w.back.enumMode = verifrt.NondetRange(tag+".mode", 0, 2)
+	w.back.enumMode = zz2Range(tag+".mode", 0, 2)
 	w.back.enumAt = 0
 	if w.back.enumMode != 0 {
 		// position of the failure: after 0..n keys (n = every key delivered, and still a failure)
-		w.back.enumAt = verifrt.NondetRange(tag+".at", 0, n)
+		w.back.enumAt = zz2Range(tag+".at", 0, n)
 	}
 	return w.back.enumMode == 0, w.back.enumMode == 2
 }
 
 // falsePositives lets the live filter answer "maybe" for arbitrary further keys (tiny filters).
 func (w *zz2World) falsePositives() {
+	if verifrt.Param("FPALL", 0) == 1 {
+		// cheaper variant: either no further key or every pool key answers "maybe"
+		if verifrt.NondetBool("fp") {
+			for _, e := range w.pool {
+				w.bc.bloom.Load().AddTS(e.m)
+			}
+		}
+		return
+	}
 	for _, e := range w.pool {
 		if verifrt.NondetBool("fp") {
 			w.bc.bloom.Load().AddTS(e.m)
